@@ -98,6 +98,12 @@ TEXT = {
             "rows; training-set probabilities vs the last forward pass of fit captured by an _infer hook",
             "Runtime monitoring: 640 fits x 8 query transformations per quick run over the 15 inductive estimators.",
             "1e-9 absolute on probabilities (BLAS blocking); labels compared where the top-two margin exceeds 1e-9."),
+    "C16": ("contract at the call boundary against a hand-written specification table of in-domain / out-of-domain "
+            "probes per hyperparameter (18 estimators, 7 GEMINI constructors, 5 generators, mlcl, print), exhaustive group "
+            "lists over small feature sets, malformed data, unfitted calls; optimiser-step hook proves rejected "
+            "configurations were never trained on; post-rejection state (no labels_, predict raises)",
+            "Runtime monitoring: ~5k probes per quick run (thorough adds pairwise combinations, ~13k).",
+            "Domains are those of the docstrings; values the docs leave open are not probed."),
 }
 
 TECH_DEFAULT = "runtime monitoring: contracts/invariants at hooked call sites over generated workloads"
